@@ -83,7 +83,7 @@ def selftest(ctx):
     if not os.path.exists(binary):
         ctx.diag.append("optstest: harness command missing")
         return
-    rc, out = C.sh([binary, "-n", str(ctx.scale(60, 400))], timeout=1200)
+    rc, out = C.sh([binary, "-n", str(ctx.scale(200, 1000))], timeout=1200)
     try:
         doc = json.loads(out)
     except ValueError:
